@@ -99,6 +99,13 @@ int KSI_TlvTemplate_serializeObject(KSI_CTX *ctx, const void *obj, unsigned tag,
 		unsigned char *b = malloc(l);
 		if (b == NULL) { g_ser_res[n] = KSI_OUT_OF_MEMORY; return g_ser_res[n]; }
 		g_ser_buf[n] = b; g_ser_len[n] = l;
+#ifdef C06_SER_MAX
+#define C06_SH(i) if ((i) < C06_SER_MAX && (i) < l) g_ser_shadow[n][(i) < C06_SER_MAX ? (i) : 0] = b[i];
+		C06_SH(0) C06_SH(1) C06_SH(2) C06_SH(3) C06_SH(4) C06_SH(5) C06_SH(6) C06_SH(7)
+#if C06_SER_MAX > 8
+#error "extend the shadow copy"
+#endif
+#endif
 		*raw = b; *raw_len = l;
 	}
 	return g_ser_res[n];
